@@ -297,9 +297,10 @@ class Shard(ShardCMC):
 
             # minishard order must always monotoneously increasing
             # by default, python dict iter respects order of insertion
+            sorted_keys = sorted(self.minishard_dict.keys())
             sorted_mini_dict: List[MiniShard] = [
                 self.minishard_dict[key]
-                for key in sorted(self.minishard_dict.keys())
+                for key in sorted_keys
             ]
             assert all(
                 isinstance(minishard, MiniShard)
@@ -317,7 +318,15 @@ class Shard(ShardCMC):
                 del minishard.databytearray
 
             sh_size = 0
-            for minishard in sorted_mini_dict:
+            for minishard_key, minishard in zip(sorted_keys,
+                                                sorted_mini_dict):
+                # The n-th entry of the shard index must describe minishard
+                # number n: leave an empty entry for every minishard of lower
+                # number that holds no chunk.
+                if isinstance(minishard_key, (int, np.integer)):
+                    while len(sh_idx_buf) < 16 * int(minishard_key):
+                        sh_idx_buf += struct.pack("<QQ", data_size + sh_size,
+                                                  data_size + sh_size)
                 # turning [0, 1, 2, 3, 4, 5] into [0, 3, 1, 4, 2, 5]
                 num_cols = int(len(minishard.header) / 3)
                 hdr_buf = np.reshape(minishard.header, (3, num_cols),
